@@ -156,3 +156,40 @@ def is_none_const(e: ast.AST) -> bool:
 def dominates(cfg: CFG, a_stmt: ast.AST, b_stmt: ast.AST, dom=None) -> bool:
     dom = dom or cfg.dominators()
     return cfg.node_of(a_stmt).id in dom[cfg.node_of(b_stmt).id]
+
+
+
+def expand_path_aliases(stmts):
+    """The statements of one path with every read of a local replaced by the value it was last bound to on that path,
+    when that value is a plain name / attribute / subscript chain (an alias).  Along a single path this is exact."""
+    import copy
+    from .core import _pure_chain
+    env = {}
+    out = []
+    for st in stmts:
+        class R(ast.NodeTransformer):
+            def visit_Name(self, n):
+                if isinstance(n.ctx, ast.Load) and n.id in env:
+                    return copy.deepcopy(env[n.id])
+                return n
+        if isinstance(st, ast.Assign) and len(st.targets) == 1 and isinstance(st.targets[0], ast.Name):
+            val = R().visit(copy.deepcopy(st.value))
+            name = st.targets[0].id
+            if _pure_chain(val) and isinstance(val, (ast.Subscript, ast.Attribute)):
+                env[name] = val
+                continue
+            env.pop(name, None)
+            new = copy.copy(st)
+            new.value = val
+            out.append(ast.copy_location(new, st))
+            continue
+        if isinstance(st, (ast.Expr, ast.AugAssign, ast.Return)) or (isinstance(st, ast.Assign)):
+            new = R().visit(copy.deepcopy(st))
+            out.append(ast.copy_location(new, st))
+            # a store into a name kills its alias
+            for x in ast.walk(st):
+                if isinstance(x, ast.Name) and isinstance(x.ctx, ast.Store):
+                    env.pop(x.id, None)
+            continue
+        out.append(st)
+    return out
